@@ -67,6 +67,22 @@ def rangeG (start endv : Int) : Gen Int :=
     let sign : Int := if start > endv then -1 else 1
     fun c => { script := (rangeLoop sign endv (endv - start).natAbs start).map (Notif.next c) ++ [.complete c] }
 
+/-- the loop of `RangeWithStep` (operator_creation.go:229-234) with integral bounds and step:
+    `for cursor*sign < end*sign { emit cursor; cursor += step*sign }`, iterations bounded by `fuel` -/
+def rangeStepLoop (sign step endv : Int) : Nat → Int → List Int
+  | 0, _ => []
+  | fuel + 1, cursor =>
+    if cursor * sign < endv * sign then cursor :: rangeStepLoop sign step endv fuel (cursor + step * sign) else []
+
+/-- `RangeWithStep(start, end, step)` (operator_creation.go:213-240) over integral floats (float arithmetic on
+    integers of this size is exact): `start = end` returns `Empty()`; `step ≤ 0` panics at construction and is not
+    a value of this model -/
+def rangeStepG (start endv step : Int) : Gen Int :=
+  if start = endv then emptyG
+  else
+    let sign : Int := if start > endv then -1 else 1
+    fun c => { script := (rangeStepLoop sign step endv (endv - start).natAbs start).map (Notif.next c) ++ [.complete c] }
+
 /-- the loop of `Repeat` (operator_creation.go:311-313) -/
 def repeatLoop (c : Ctx) (item : α) : Nat → List (Notif α)
   | 0 => []
